@@ -713,3 +713,150 @@ PROPS['C16'] = dict(
     level_note='Proof for input-order independence and state threading; correspondence-only (code against code) for "nothing else influences the outcome". Trusted: Coq kernel; harness+driver.',
     technique='Coq simulation proof (evaluation invariant under permutation of input declarations) + code-against-code double-run / reuse / permutation correspondence',
     design_ref='DESIGN.md §6 C16')
+
+# ---------------------------------------------------------------------------
+# C19: the generated builder
+import random as _random, shutil as _shutil
+import c19gen
+
+C19_PROBE = {'codes': {}, 'n': 0}
+
+def c19_gen_extra(tier, seed):
+    """compile probes: well-typed sequences and their ill-typed neighbours, plus raw random sequences"""
+    rng = _random.Random(seed * 7919 + 19)
+    n = 25 if tier != 'thorough' else 150
+    out, seen = [], set()
+    def add(sid, nst, cs):
+        key = (sid, _json.dumps(cs))
+        if key not in seen and len(cs) > 0:
+            seen.add(key); out.append([1, 3, cs, sid])
+    for i in range(n):
+        sid, spec = (0, c19gen.PUSHSTATE) if i % 3 else (1, c19gen.MINI)
+        stacks = sorted(spec['stacks'])
+        cs = c19gen.typed_sequence(rng, stacks, maxlen=5)
+        add(sid, 3, cs)
+        ms = c19gen.mutants(cs, rng, stacks)
+        rng.shuffle(ms)
+        for m in ms[:3 if tier != 'thorough' else 6]:
+            add(sid, 3, m)
+        raw = [c19gen.rand_call(rng, stacks) for _ in range(rng.randint(1, 5))]
+        if rng.random() < 0.5: raw.append([7])
+        add(sid, 3, raw)
+    # the probe input handed to Coq is [1, nstacks, cs]; the struct id rides along as a 4th element for the emitter
+    return out
+
+def c19_compile(cases):
+    """cases: list of (name, struct id, call sequence); returns {name: (compiled, [error codes])}"""
+    wd = os.path.join(_ROOT, 'work', 'c19probe')
+    _shutil.rmtree(os.path.join(wd, 'src'), ignore_errors=True)
+    os.makedirs(os.path.join(wd, 'src', 'bin'), exist_ok=True)
+    os.makedirs(os.path.join(wd, '.cargo'), exist_ok=True)
+    open(os.path.join(wd, 'Cargo.toml'), 'w').write('[package]\nname = "c19probe"\nversion = "0.1.0"\nedition = "2021"\n\n[workspace]\n\n[dependencies]\npush = { path = "/repo/packages/push" }\nordered-float = "5.0.0"\n')
+    open(os.path.join(wd, '.cargo', 'config.toml'), 'w').write('[net]\noffline = true\n[build]\ntarget-dir = "%s"\n' % os.path.join(_ROOT, 'work', 'target_probe'))
+    _shutil.copy('/repo/Cargo.lock', os.path.join(wd, 'Cargo.lock'))
+    mini = '''#[derive(Default, Debug, Clone, PartialEq, Eq)]
+#[push::push_state(builder, !has_stack)]
+pub struct Mini {
+    #[stack(exec)]
+    pub code: Stack<PushProgram>,
+    #[stack(instruction_name = PushInstruction::push_int)]
+    pub numbers: Stack<i64>,
+    #[stack(builder_name = flag, instruction_name = PushInstruction::push_bool)]
+    pub switches: Stack<bool>,
+    #[input_instructions]
+    pub ins: std::collections::HashMap<push::instruction::variable_name::VariableName, PushInstruction>,
+    #[instruction_step_limit]
+    pub steps: usize,
+}
+'''
+    for name, sid, cs in cases:
+        spec = c19gen.PUSHSTATE if sid == 0 else c19gen.MINI
+        body = c19gen.rust_chain(cs, spec)
+        src = ('#![allow(unused)]\nuse ordered_float::OrderedFloat;\nuse push::instruction::PushInstruction;\nuse push::push_vm::program::PushProgram;\n'
+               'use push::push_vm::push_state::PushState;\nuse push::push_vm::stack::{Stack, StackError};\n' + (mini if sid == 1 else '') +
+               'fn main() {\n    let _r = (|| -> Result<(), StackError> {\n        let _x = %s;\n        Ok(())\n    })();\n}\n' % body)
+        open(os.path.join(wd, 'src', 'bin', name + '.rs'), 'w').write(src)
+    env = dict(os.environ, CARGO_NET_OFFLINE='true', RUSTFLAGS='--cfg unhindered_ec_verif')
+    p = subprocess.run(['cargo', 'check', '--bins', '--keep-going', '--message-format=json', '--offline', '--quiet'], cwd=wd, env=env,
+                       stdout=subprocess.PIPE, stderr=subprocess.PIPE, text=True, timeout=3000)
+    ok, errs = set(), {}
+    for line in p.stdout.splitlines():
+        try:
+            m = _json.loads(line)
+        except Exception:
+            continue
+        t = (m.get('target') or {}).get('name')
+        if m.get('reason') == 'compiler-artifact' and t:
+            ok.add(t)
+        elif m.get('reason') == 'compiler-message' and t and m['message'].get('level') == 'error':
+            code = (m['message'].get('code') or {}).get('code') or 'no-code'
+            if not m['message'].get('message', '').startswith('aborting'):
+                errs.setdefault(t, []).append(code)
+    res = {}
+    for name, sid, cs in cases:
+        if name in errs:
+            res[name] = (False, errs[name])
+        elif name in ok:
+            res[name] = (True, [])
+        else:
+            res[name] = (None, ['not-reported: ' + p.stderr[-300:]])
+    return res
+
+def c19_run_override(pid, inputs, tag):
+    from driver_main import run_inputs, Lock
+    obs = [None] * len(inputs); valid = [True] * len(inputs)
+    i0 = [i for i, x in enumerate(inputs) if x[0] == 0]
+    i1 = [i for i, x in enumerate(inputs) if x[0] == 1]
+    if i0:
+        o, v = run_inputs(pid, [inputs[i] for i in i0], tag=tag)
+        for i, oo, vv in zip(i0, o, v):
+            obs[i] = oo; valid[i] = vv
+    if i1:
+        with Lock('c19probe.lock'):
+            res = c19_compile([('p%d' % k, inputs[i][3], inputs[i][2]) for k, i in enumerate(i1)])
+        for k, i in enumerate(i1):
+            compiled, codes = res['p%d' % k]
+            C19_PROBE['n'] += 1
+            for c in codes:
+                C19_PROBE['codes'][c] = C19_PROBE['codes'].get(c, 0) + 1
+            # a rejection counts as a type-state rejection only for a missing method / unsatisfied bound on the builder
+            if compiled is None or (compiled is False and not all(c in ('E0599', 'E0277', 'E0308') for c in codes)):
+                valid[i] = False
+            else:
+                obs[i] = [1 if compiled else 0]
+    return obs, valid
+
+def c19_case_of(inp, obs):
+    if inp[0] == 1:
+        return [[1, inp[1], inp[2]], obs]
+    return [inp, obs]
+
+def c19_calls(cs):
+    n = ['with_max_stack_size', 'with_{k}_max_size', 'with_{k}_values', 'with_program', 'with_no_program', 'with_{k}_input', 'with_instruction_step_limit', 'build']
+    out = []
+    for c in cs:
+        s = n[c[0]]
+        if '{k}' in s: s = s.replace('{k}', ['int', 'float', 'bool'][c[1]])
+        out.append(s + '(' + ','.join(str(x) for x in (c[2:] if c[0] in (1, 2, 5) else c[1:])) + ')')
+    return '.'.join(out)
+
+def c19_describe(inp, obs):
+    if inp[0] == 1:
+        return 'compile probe (%s): builder().%s ; observed [1] = rustc accepts it, [0] = rejected' % ('PushState' if inp[3] == 0 else 'Mini', c19_calls(inp[2]))
+    return 'run (%s): builder().%s ; observed [0, exec top-first, exec max, [[stack, max]..], step limit, [[name, stack, value]..]] or [1] = overflow error' % ('PushState' if inp[1] == 0 else 'Mini', c19_calls(inp[3]))
+
+PROPS['C19'] = dict(
+    corr='CorrC19', judge='(judge_cases judge)', gen_extra=c19_gen_extra, run_override=c19_run_override, case_of=c19_case_of,
+    coq_targets=['theories/Props/C19.vo', 'theories/Corr/CorrC19.vo'],
+    describe=c19_describe, no_shrink=True, nontrivial=lambda i, o: True,
+    classify=lambda i, o: 'compile-probe' if i[0] == 1 else 'built-state',
+    bucket=lambda i, o: ['kind=%s' % ('compile-probe' if i[0] == 1 else 'run'), 'struct=%s' % ('PushState' if (i[3] if i[0] == 1 else i[1]) == 0 else 'Mini'),
+                         'outcome=%s' % (o if i[0] == 1 else ('overflow' if o == [1] else 'built'))],
+    cov_extra=lambda inputs, obs, verdicts: dict(compile_probes=C19_PROBE['n'], rustc_error_codes=C19_PROBE['codes']),
+    rule='(run) 200 compiled-in well-typed builder call sequences - 140 on PushState, 60 on a second struct the macro is applied to in the harness (other field names, builder_name / instruction_name options, two value stacks) - with per-stack and global sizes in every legal order, repeated value loads, programs, inputs declared in various orders and re-declared, step limits: stack contents (top first), maximum sizes, step limit, the program order on the exec stack and the resolution of every declared input are compared with Builder.brun in coqc, as is the overflow error; the derived accessors are exercised on PushState through HasStack. (compile) 25 (quick) / 150 (thorough) well-typed sequences plus their ill-typed neighbours (each required step omitted, a resize after a load, values before any size, a second program decision, a global size after data, no build) and raw random sequences, each compiled as its own binary against the current tree with cargo check: rustc accepts it <=> Builder.typed.',
+    trusted=['rustc / cargo check as the oracle of what compiles (differential compile probes)', 'the sequence generators and Rust emitters (driver/c19gen.py, harness/gen/gen_c19.py)'],
+    assumptions=['derived HasStack accessors are exercised on PushState only (they do not compile downstream for >= 2 stacks: observation O1 in DESIGN)', 'the macro attribute parser is not modelled'],
+    level_text='Theorems (Props/C19.v): the type-state machine transcribed from the generated trait bounds admits a build only after the global stack size, a program decision and a step limit; after values were loaded into a stack neither its own nor the global size can be set; typed sequences are prefix closed. Built state: loading puts the first supplied value on top and stacks up over repeated loads, more values / program elements than the maximum is an overflow and nothing is built, the program\'s first element is on top of exec, the maximum last set (globally or individually) wins, named inputs resolve to their last declaration independently of declaration order. Tied to the code by compiled-in call sequences on two macro-generated structs and by differential compile probes (compiles <=> typed).',
+    level_note='Trusted: Coq kernel; harness+driver+generators; rustc as compile oracle.',
+    technique='Coq theorems over a type-state automaton and builder semantics + compiled-in call sequences and differential cargo-check compile probes',
+    design_ref='DESIGN.md §8 C19')
